@@ -18,6 +18,8 @@
            prior being none / an index / a nested fact perspective (mid-segment
            reconstruction), `cmds` (per-command updates) and `cur` (`current_updates`).
      fper  an open bare `LinearFactPerspective` (`get_fact_perspective`, used for braids).
+     braid the fact index last returned by `write_facts` (with the flat map it must show); a
+           merge perspective (`new_merge_perspective`) takes it as its prior facts.
      cps   checkpoints taken on `per` (with ghost copies of what was visible then).
    Ghost `disc` (in `per`, copied into the segment it is written to): the updates discarded by
    reverts so far.  It has no counterpart in the code; it only keeps states with different
@@ -25,7 +27,7 @@
    contains the revert that discarded them (history coverage for "discarded writes resurface").
    One action per public call: `new_perspective`, `insert`, `delete`, `add_command`,
    `checkpoint`, `revert`, `new_storage`, `write`, `get_linear_perspective`,
-   `get_fact_perspective`, `write_facts`.  `write_facts_with_prior` compacts the chain into a
+   `get_fact_perspective`, `write_facts`, `new_merge_perspective`.  `write_facts_with_prior` compacts the chain into a
    single tombstone-free index when the prior's depth exceeds MaxDepth-1.
 
    TLC checks that the layered model refines the flat map at every committed index, at every
@@ -45,13 +47,16 @@ CONSTANTS Names,      \* fact names
           Keys,       \* compound keys: sequences of strings
           ValChoice(_, _),  \* ValChoice(segment number being built, command number being built):
                             \* the set of values (positive integers) an insert may write
+          OpenCands(_),     \* OpenCands(segs): locations <<s, i>> at which perspectives are opened
+          MergeCands(_),    \* MergeCands(segs): <<s, i, s2, i2>> parent pairs of merge perspectives
+                            \* (all of them in model checking; the newest ones in long simulations)
           MaxDepth,   \* MAX_FACT_INDEX_DEPTH (16 in the code; >= 2)
           Record,     \* keep the S2I history
           Fat         \* history records carry the expected observation of every step (simulation)
 
-VARIABLES idx, segs, per, fper, cps, last, hist
-vars == <<idx, segs, per, fper, cps, last, hist>>
-View == <<idx, segs, per, fper, cps>>
+VARIABLES idx, segs, per, fper, braid, cps, last, hist
+vars == <<idx, segs, per, fper, braid, cps, last, hist>>
+View == <<idx, segs, per, fper, braid, cps>>
 
 FK    == Names \X Keys          \* fact keys <<name, key>>
 TOMB  == 0
@@ -70,10 +75,13 @@ RECURSIVE FApplyCmds(_, _)
 FApplyCmds(f, cmds) == IF cmds = <<>> THEN f ELSE FApplyCmds(FApply(f, cmds[1]), Tail(cmds))
 
 NoLoc == <<0, 0>>
+(* a merge segment starts from the braid of its two parents (ghost `mbase`), any other segment
+   from the facts at its prior location *)
 RECURSIVE FlatAtIn(_, _)
 FlatAtIn(sg, loc) ==
   IF loc[1] = 0 THEN FlatEmpty
-  ELSE FApplyCmds(FlatAtIn(sg, sg[loc[1]].prior), SubSeq(sg[loc[1]].cmds, 1, loc[2]))
+  ELSE FApplyCmds(IF sg[loc[1]].merge THEN sg[loc[1]].mbase ELSE FlatAtIn(sg, sg[loc[1]].prior),
+                  SubSeq(sg[loc[1]].cmds, 1, loc[2]))
 FlatAt(loc) == FlatAtIn(segs, loc)
 
 ----------------------------------------------------------------------------------
@@ -157,11 +165,14 @@ FactPerspAt(s, i) ==
   THEN NewFp(PIdx(g.facts))
   ELSE FpApplyCmds(NewFp(IF g.pf = 0 THEN PNone ELSE PIdx(g.pf)), SubSeq(g.cmds, 1, i))
 
-Closed == [open |-> FALSE, parent |-> NoLoc, fp |-> NewFp(PNone), cmds |-> <<>>, cur |-> <<>>, disc |-> {}]
+Closed == [open |-> FALSE, parent |-> NoLoc, fp |-> NewFp(PNone), cmds |-> <<>>, cur |-> <<>>, disc |-> {},
+           merge |-> FALSE, mbase |-> FlatEmpty]
+NoBraid == [id |-> 0, g |-> FlatEmpty]
 FClosed == [open |-> FALSE, loc |-> NoLoc, fp |-> NewFp(PNone), g |-> FlatEmpty]
 
 (* what the open graph perspective must show (abstract layer) *)
-PerFlat(p) == FApply(FApplyCmds(FlatAt(p.parent), p.cmds), p.cur)
+BaseIn(sg, p) == IF p.merge THEN p.mbase ELSE FlatAtIn(sg, p.parent)
+PerFlat(p) == FApply(FApplyCmds(BaseIn(segs, p), p.cmds), p.cur)
 
 ----------------------------------------------------------------------------------
 (* History records *)
@@ -185,7 +196,7 @@ Log(rec) == /\ last' = rec
    the implementation-shaped layer *)
 ObsIn(sg, p, f) ==
   [po |-> p.open,
-   pv |-> IF p.open THEN FlatSeq(FApply(FApplyCmds(FlatAtIn(sg, p.parent), p.cmds), p.cur)) ELSE <<>>,
+   pv |-> IF p.open THEN FlatSeq(FApply(FApplyCmds(BaseIn(sg, p), p.cmds), p.cur)) ELSE <<>>,
    pc |-> Len(p.cmds),
    fo |-> f.open, fv |-> IF f.open THEN FlatSeq(f.g) ELSE <<>>,
    sf |-> <<>>, ex |-> <<>>, xc |-> 0, dirty |-> FALSE]
@@ -194,7 +205,7 @@ Obs(p, f) == ObsIn(segs, p, f)
 ----------------------------------------------------------------------------------
 (* Transitions *)
 Init == /\ idx = <<>> /\ segs = <<>>
-        /\ per = Closed /\ fper = FClosed /\ cps = <<>>
+        /\ per = Closed /\ fper = FClosed /\ braid = NoBraid /\ cps = <<>>
         /\ last = Rec("init", NoX, 0, 0, 0, 0, "ok", Obs(Closed, FClosed))
         /\ hist = <<>>
 
@@ -203,28 +214,28 @@ NewPerspective ==
   /\ segs = <<>> /\ ~per.open
   /\ per' = [Closed EXCEPT !.open = TRUE]
   /\ cps' = <<>>
-  /\ UNCHANGED <<idx, segs, fper>>
+  /\ UNCHANGED <<idx, segs, fper, braid>>
   /\ Log(Rec("new_perspective", NoX, 0, 0, 0, 0, "ok", Obs(per', fper)))
 
 (* QueryMut::insert on the graph perspective *)
 Insert(x, v) ==
   /\ per.open
   /\ per' = [per EXCEPT !.fp = FpIns(per.fp, x, v), !.cur = Append(per.cur, <<x, v>>)]
-  /\ UNCHANGED <<idx, segs, fper, cps>>
+  /\ UNCHANGED <<idx, segs, fper, braid, cps>>
   /\ Log(Rec("insert", x, v, 0, 0, 0, "ok", Obs(per', fper)))
 
 (* QueryMut::delete on the graph perspective *)
 Delete(x) ==
   /\ per.open
   /\ per' = [per EXCEPT !.fp = FpDel(per.fp, x), !.cur = Append(per.cur, <<x, 0>>)]
-  /\ UNCHANGED <<idx, segs, fper, cps>>
+  /\ UNCHANGED <<idx, segs, fper, braid, cps>>
   /\ Log(Rec("delete", x, 0, 0, 0, 0, "ok", Obs(per', fper)))
 
 (* Perspective::add_command — the pending updates become the command's updates *)
 AddCommand ==
   /\ per.open
   /\ per' = [per EXCEPT !.cmds = Append(per.cmds, per.cur), !.cur = <<>>]
-  /\ UNCHANGED <<idx, segs, fper, cps>>
+  /\ UNCHANGED <<idx, segs, fper, braid, cps>>
   /\ Log(Rec("add_command", NoX, 0, 0, 0, 0, "ok", Obs(per', fper)))
 
 (* Revertable::checkpoint — the code keeps only the command count *)
@@ -232,7 +243,7 @@ Checkpoint ==
   /\ per.open
   /\ cps' = Append(cps, [index |-> Len(per.cmds), pend |-> Len(per.cur),
                          g |-> PerFlat(per), cnt |-> Len(per.cmds)])
-  /\ UNCHANGED <<idx, segs, per, fper>>
+  /\ UNCHANGED <<idx, segs, per, fper, braid>>
   /\ Log(Rec("checkpoint", NoX, 0, 0, 0, Len(cps) + 1, "ok", Obs(per, fper)))
 
 (* Revertable::revert(cps[j]); later checkpoints become invalid (stack discipline) *)
@@ -253,7 +264,7 @@ Revert(j) ==
   /\ per.open /\ j \in 1..Len(cps)
   /\ per' = [RevertStep(per, cps[j]) EXCEPT !.disc = per.disc \cup Discarded(per, cps[j])]
   /\ cps' = SubSeq(cps, 1, j)
-  /\ UNCHANGED <<idx, segs, fper>>
+  /\ UNCHANGED <<idx, segs, fper, braid>>
   /\ Log(Rec("revert", NoX, 0, 0, 0, j, "ok",
              [Obs(per', fper) EXCEPT !.ex = FlatSeq(cps[j].g), !.xc = cps[j].cnt,
                                      !.dirty = cps[j].pend > 0]))
@@ -263,11 +274,12 @@ Create ==
   /\ per.open /\ segs = <<>> /\ per.cur = <<>>
   /\ IF per.cmds = <<>>
      THEN /\ UNCHANGED <<idx, segs>>
-          /\ per' = Closed /\ cps' = <<>> /\ UNCHANGED fper
+          /\ per' = Closed /\ cps' = <<>> /\ UNCHANGED <<fper, braid>>
           /\ Log(Rec("create", NoX, 0, 0, 0, 0, "err", Obs(Closed, fper)))     \* EmptyPerspective
      ELSE /\ idx' = <<[prior |-> 0, depth |-> 1, m |-> per.fp.m]>>
-          /\ segs' = <<[prior |-> NoLoc, cmds |-> per.cmds, facts |-> 1, pf |-> 0, disc |-> per.disc]>>
-          /\ per' = Closed /\ cps' = <<>> /\ UNCHANGED fper
+          /\ segs' = <<[prior |-> NoLoc, cmds |-> per.cmds, facts |-> 1, pf |-> 0, disc |-> per.disc,
+                         merge |-> FALSE, mbase |-> FlatEmpty]>>
+          /\ per' = Closed /\ cps' = <<>> /\ UNCHANGED <<fper, braid>>
           /\ Log(Rec("create", NoX, 0, 1, Len(per.cmds), 0, "ok",
                      [Obs(Closed, fper) EXCEPT !.sf = FlatSeq(FApplyCmds(FlatEmpty, per.cmds))]))
 
@@ -280,37 +292,49 @@ Write ==
         THEN /\ UNCHANGED segs
              /\ Log(Rec("write", NoX, 0, 0, 0, 0, "err", Obs(Closed, fper)))  \* EmptyPerspective
         ELSE /\ segs' = Append(segs, [prior |-> per.parent, cmds |-> per.cmds, facts |-> w.id, pf |-> w.pf,
-                                                  disc |-> per.disc])
+                                                  disc |-> per.disc, merge |-> per.merge, mbase |-> per.mbase])
              /\ Log(Rec("write", NoX, 0, Len(segs) + 1, Len(per.cmds), 0, "ok",
-                        [Obs(Closed, fper) EXCEPT !.sf = FlatSeq(FApplyCmds(FlatAt(per.parent), per.cmds))]))
-  /\ per' = Closed /\ cps' = <<>> /\ UNCHANGED fper
+                        [Obs(Closed, fper) EXCEPT !.sf = FlatSeq(FApplyCmds(BaseIn(segs, per), per.cmds))]))
+  /\ per' = Closed /\ cps' = <<>> /\ UNCHANGED <<fper, braid>>
 
 (* Storage::get_linear_perspective(location) (a still open perspective is dropped) *)
 Open(s, i) ==
   /\ s \in 1..Len(segs) /\ i \in 1..Len(segs[s].cmds)
   /\ per' = [open |-> TRUE, parent |-> <<s, i>>, fp |-> NewFp(PriorAt(s, i)), cmds |-> <<>>, cur |-> <<>>,
-             disc |-> {}]
+             disc |-> {}, merge |-> FALSE, mbase |-> FlatEmpty]
   /\ cps' = <<>>
-  /\ UNCHANGED <<idx, segs, fper>>
+  /\ UNCHANGED <<idx, segs, fper, braid>>
   /\ Log(Rec("open", NoX, 0, s, i, 0, "ok", Obs(per', fper)))
+
+(* Storage::new_merge_perspective(left, right, lca, policy, braid): the braid index returned by
+   write_facts becomes the prior facts of the merge perspective (it is consumed).  In the
+   history record the right parent is carried in the fields v (segment) and j (command). *)
+OpenMerge(s, i, s2, i2) ==
+  /\ braid.id # 0 /\ <<s, i>> # <<s2, i2>>
+  /\ s \in 1..Len(segs) /\ i \in 1..Len(segs[s].cmds) /\ s2 \in 1..Len(segs) /\ i2 \in 1..Len(segs[s2].cmds)
+  /\ per' = [open |-> TRUE, parent |-> <<s, i>>, fp |-> NewFp(PIdx(braid.id)), cmds |-> <<>>, cur |-> <<>>,
+             disc |-> {}, merge |-> TRUE, mbase |-> braid.g]
+  /\ braid' = NoBraid /\ cps' = <<>>
+  /\ UNCHANGED <<idx, segs, fper>>
+  /\ Log(Rec("open_merge", NoX, s2, s, i, i2, "ok", Obs(per', fper)))
 
 (* Storage::get_fact_perspective(location) *)
 OpenFacts(s, i) ==
   /\ s \in 1..Len(segs) /\ i \in 1..Len(segs[s].cmds)
   /\ fper' = [open |-> TRUE, loc |-> <<s, i>>, fp |-> FactPerspAt(s, i), g |-> FlatAt(<<s, i>>)]
-  /\ UNCHANGED <<idx, segs, per, cps>>
+  /\ UNCHANGED <<idx, segs, per, braid, cps>>
   /\ Log(Rec("open_facts", NoX, 0, s, i, 0, "ok", Obs(per, fper')))
 
 (* QueryMut on the bare fact perspective (what a braid does) *)
 FInsert(x, v) ==
   /\ fper.open
   /\ fper' = [fper EXCEPT !.fp = FpIns(fper.fp, x, v), !.g = [fper.g EXCEPT ![x] = v]]
-  /\ UNCHANGED <<idx, segs, per, cps>>
+  /\ UNCHANGED <<idx, segs, per, braid, cps>>
   /\ Log(Rec("f_insert", x, v, 0, 0, 0, "ok", Obs(per, fper')))
 FDelete(x) ==
   /\ fper.open
   /\ fper' = [fper EXCEPT !.fp = FpDel(fper.fp, x), !.g = [fper.g EXCEPT ![x] = 0]]
-  /\ UNCHANGED <<idx, segs, per, cps>>
+  /\ UNCHANGED <<idx, segs, per, braid, cps>>
   /\ Log(Rec("f_delete", x, 0, 0, 0, 0, "ok", Obs(per, fper')))
 
 (* Storage::write_facts(fact perspective) -> a fact index (the braid result) *)
@@ -323,6 +347,7 @@ WriteFacts ==
                                           !.ex = FlatSeq(IViewIn(w.ix, w.id))]))
   /\ fper' = FClosed
   /\ UNCHANGED <<segs, per, cps>>
+  /\ braid' = [id |-> WF(idx, fper.fp).id, g |-> fper.g]
 
 (* quantified actions get a name of their own (TLC attributes coverage to the operator that
    holds the first conjunction) *)
@@ -331,11 +356,12 @@ DeleteAny    == \E x \in FK : x \in FK /\ Delete(x)
 FInsertAny   == \E x \in FK : \E v \in ValChoice(Len(segs) + 1, 9) : v > 0 /\ FInsert(x, v)
 FDeleteAny   == \E x \in FK : x \in FK /\ FDelete(x)
 RevertAny    == \E j \in 1..Len(cps) : j > 0 /\ Revert(j)
-OpenAny      == \E s \in 1..Len(segs) : \E i \in 1..Len(segs[s].cmds) : i > 0 /\ Open(s, i)
-OpenFactsAny == \E s \in 1..Len(segs) : \E i \in 1..Len(segs[s].cmds) : i > 0 /\ OpenFacts(s, i)
+OpenAny      == \E c \in OpenCands(segs) : c[1] > 0 /\ Open(c[1], c[2])
+OpenFactsAny == \E c \in OpenCands(segs) : c[1] > 0 /\ OpenFacts(c[1], c[2])
+OpenMergeAny == \E c \in MergeCands(segs) : c[1] > 0 /\ OpenMerge(c[1], c[2], c[3], c[4])
 
 Next == \/ NewPerspective \/ AddCommand \/ Checkpoint \/ Create \/ Write \/ WriteFacts
-        \/ InsertAny \/ DeleteAny \/ FInsertAny \/ FDeleteAny \/ RevertAny \/ OpenAny \/ OpenFactsAny
+        \/ InsertAny \/ DeleteAny \/ FInsertAny \/ FDeleteAny \/ RevertAny \/ OpenAny \/ OpenFactsAny \/ OpenMergeAny
 
 Spec == Init /\ [][Next]_vars
 
@@ -353,6 +379,9 @@ PerspRefines == per.open => FpView(per.fp) = PerFlat(per)
 (* the open bare fact perspective shows what was applied to it *)
 FactPerspRefines == fper.open => FpView(fper.fp) = fper.g
 
+(* the braid index returned by write_facts shows what the fact perspective showed *)
+BraidRefines == braid.id # 0 => IView(braid.id) = braid.g
+
 (* structure of the index chain *)
 ChainOK == \A id \in 1..Len(idx) :
              /\ idx[id].prior < id
@@ -362,7 +391,7 @@ ChainOK == \A id \in 1..Len(idx) :
 (* a segment's own updates are relative to its prior_facts index *)
 PriorFactsOK == \A s \in 1..Len(segs) :
                   LET g == segs[s] IN
-                  IViewIn(idx, g.pf) = (IF s = 1 THEN FlatEmpty ELSE FlatAt(g.prior))
+                  IViewIn(idx, g.pf) = (IF g.merge THEN g.mbase ELSE IF s = 1 THEN FlatEmpty ELSE FlatAt(g.prior))
 
 (* C13 — action property: reverting to a checkpoint is exact — the facts visible, the number of
    commands and the pending updates are those of the moment the checkpoint was taken *)
